@@ -18,7 +18,10 @@ use crate::{
             },
         },
         format::format_part,
-        offset::{add_offset_to_dn, remove_offset_from_dn, try_remove_offset_from_dn},
+        offset::{
+            add_offset_to_dn, remove_offset_from_dn, try_add_offset_to_dn,
+            try_remove_offset_from_dn,
+        },
         parse::{
             parse_format_string, parse_offset, parse_part, remove_escaped_part, remove_part,
             unescape_part, ParseUnit, ParsedDate, ParsedTime, Period,
@@ -636,7 +639,8 @@ impl DateUtilities for DateTime {
 
     fn set_year(&self, year: i32) -> Result<Self, AstrolabeError> {
         let offset_seconds = self.offset.resolve();
-        let (days, nanoseconds) = add_offset_to_dn(self.days, self.nanoseconds, offset_seconds);
+        let (days, nanoseconds) =
+            try_add_offset_to_dn(self.days, self.nanoseconds, offset_seconds)?;
 
         let new_days = set_year(days, year)?;
 
@@ -649,7 +653,8 @@ impl DateUtilities for DateTime {
 
     fn set_month(&self, month: u32) -> Result<Self, AstrolabeError> {
         let offset_seconds = self.offset.resolve();
-        let (days, nanoseconds) = add_offset_to_dn(self.days, self.nanoseconds, offset_seconds);
+        let (days, nanoseconds) =
+            try_add_offset_to_dn(self.days, self.nanoseconds, offset_seconds)?;
 
         let new_days = set_month(days, month)?;
 
@@ -662,7 +667,8 @@ impl DateUtilities for DateTime {
 
     fn set_day(&self, day: u32) -> Result<Self, AstrolabeError> {
         let offset_seconds = self.offset.resolve();
-        let (days, nanoseconds) = add_offset_to_dn(self.days, self.nanoseconds, offset_seconds);
+        let (days, nanoseconds) =
+            try_add_offset_to_dn(self.days, self.nanoseconds, offset_seconds)?;
 
         let new_days = set_day(days, day)?;
 
@@ -675,7 +681,8 @@ impl DateUtilities for DateTime {
 
     fn set_day_of_year(&self, day_of_year: u32) -> Result<Self, AstrolabeError> {
         let offset_seconds = self.offset.resolve();
-        let (days, nanoseconds) = add_offset_to_dn(self.days, self.nanoseconds, offset_seconds);
+        let (days, nanoseconds) =
+            try_add_offset_to_dn(self.days, self.nanoseconds, offset_seconds)?;
 
         let new_days = set_day_of_year(days, day_of_year)?;
 
@@ -890,7 +897,7 @@ impl TimeUtilities for DateTime {
     fn set_hour(&self, hour: u32) -> Result<Self, AstrolabeError> {
         let offset_seconds = self.offset.resolve();
 
-        let (days, nanos) = add_offset_to_dn(self.days, self.nanoseconds, offset_seconds);
+        let (days, nanos) = try_add_offset_to_dn(self.days, self.nanoseconds, offset_seconds)?;
 
         let new_nanos = set_hour(nanos, hour)?;
 
@@ -906,7 +913,7 @@ impl TimeUtilities for DateTime {
     fn set_minute(&self, minute: u32) -> Result<Self, AstrolabeError> {
         let offset_seconds = self.offset.resolve();
 
-        let (days, nanos) = add_offset_to_dn(self.days, self.nanoseconds, offset_seconds);
+        let (days, nanos) = try_add_offset_to_dn(self.days, self.nanoseconds, offset_seconds)?;
 
         let new_nanos = set_minute(nanos, minute)?;
 
@@ -922,7 +929,7 @@ impl TimeUtilities for DateTime {
     fn set_second(&self, second: u32) -> Result<Self, AstrolabeError> {
         let offset_seconds = self.offset.resolve();
 
-        let (days, nanos) = add_offset_to_dn(self.days, self.nanoseconds, offset_seconds);
+        let (days, nanos) = try_add_offset_to_dn(self.days, self.nanoseconds, offset_seconds)?;
 
         let new_nanos = set_second(nanos, second)?;
 
@@ -938,7 +945,7 @@ impl TimeUtilities for DateTime {
     fn set_milli(&self, milli: u32) -> Result<Self, AstrolabeError> {
         let offset_seconds = self.offset.resolve();
 
-        let (days, nanos) = add_offset_to_dn(self.days, self.nanoseconds, offset_seconds);
+        let (days, nanos) = try_add_offset_to_dn(self.days, self.nanoseconds, offset_seconds)?;
 
         let new_nanos = set_milli(nanos, milli)?;
 
@@ -954,7 +961,7 @@ impl TimeUtilities for DateTime {
     fn set_micro(&self, micro: u32) -> Result<Self, AstrolabeError> {
         let offset_seconds = self.offset.resolve();
 
-        let (days, nanos) = add_offset_to_dn(self.days, self.nanoseconds, offset_seconds);
+        let (days, nanos) = try_add_offset_to_dn(self.days, self.nanoseconds, offset_seconds)?;
 
         let new_nanos = set_micro(nanos, micro)?;
 
@@ -970,7 +977,7 @@ impl TimeUtilities for DateTime {
     fn set_nano(&self, nano: u32) -> Result<Self, AstrolabeError> {
         let offset_seconds = self.offset.resolve();
 
-        let (days, nanos) = add_offset_to_dn(self.days, self.nanoseconds, offset_seconds);
+        let (days, nanos) = try_add_offset_to_dn(self.days, self.nanoseconds, offset_seconds)?;
 
         let new_nanos = set_nano(nanos, nano)?;
 
